@@ -4,6 +4,8 @@
    (split_file_into_chunks_by_size), Model/Indexer.v (index_chroms after c270203). *)
 From BT Require Import Base.Util Model.FileView Model.Chunker Model.Indexer.
 From BT Require Import Proofs.FileViewSim Proofs.ChunkerPartition Proofs.IndexerGrouped Proofs.IndexerViews.
+From BT Require Import Proofs.SliceStreams Proofs.SliceStreamsIndex.
+From BT Require Model.BBIFile Model.BigWigWrite Model.Accept Proofs.SliceStreamsAccept.
 Local Open Scope N_scope.
 
 (* ------------------------------------------------------------------ FileView *)
@@ -167,3 +169,209 @@ Proof.
   split; [|vm_compute; reflexivity].
   intros H. apply groupedb_complete in H. vm_compute in H. discriminate.
 Qed.
+
+(* ================================================================== the consequence:
+   "the parallel paths see precisely the record stream the serial path sees" *)
+
+(* ------------------------------------------------------------------ lines through a view *)
+(* BufReader<FileView> line reading on top of the view machine's Read calls (Model/Chunker.v:
+   fill_buf / read_until_nl / read_lines; the k-th Read asks for [sz k] bytes, any sizes >= 1, so any
+   buffer capacity and any sequence of Read n calls a buffered reader may make): for every window
+   [a,b) that starts inside the file (b may lie beyond its end) the lines delivered by repeated
+   read-until-newline, up to the first empty read, are exactly the lines of the byte range. *)
+Theorem C18_view_lines : forall (file : list N) (a b : N) (sz : nat -> N) (fuel : nat),
+  a <= b -> a <= Nlen file -> Nlen file < 2 ^ 63 -> (forall k, 1 <= sz k) ->
+  (length file < fuel)%nat ->
+  view_lines fuel file sz a b = Ok (split_lines (range file a b)).
+Proof. exact view_lines_spec. Qed.
+Print Assumptions C18_view_lines.
+
+(* ------------------------------------------------------------------ (1) one file, two models *)
+(* The indexer model's file of a byte string: [lfile key bytes] = (key l, length of l) for the raw
+   lines l of the text, for ANY classification [key] of raw lines (0 = parse_line refuses the line,
+   else an id of its chromosome).  Offsets computed at line level are byte offsets of line starts:
+   the entry of the line l that follows the lines p is (number of bytes of p, key l), that offset is a
+   line start of the byte file (what the chunker theorem calls cut_ok), and the bytes of the file from
+   there are l.  The sizes agree. *)
+Theorem C18_line_offsets_are_byte_offsets : forall (key : list N -> N) (bytes : list N) p l s,
+  split_lines bytes = p ++ l :: s ->
+  fsize (lfile key bytes) = Nlen bytes /\
+  entries 0 (lfile key bytes) =
+    entries 0 (map (abs_line key) p) ++ (Nlen (concat p), key l)
+      :: entries (Nlen (concat p) + Nlen l) (map (abs_line key) s) /\
+  cut_ok bytes (Nlen (concat p)) /\
+  range bytes (Nlen (concat p)) (Nlen (concat p) + Nlen l) = l.
+Proof. intros key bytes p l s E. split; [apply fsize_lfile | apply lfile_offsets; exact E]. Qed.
+Print Assumptions C18_line_offsets_are_byte_offsets.
+
+(* ------------------------------------------------------------------ (2) the parallel source's readers *)
+(* [par_streams fuel bytes sz ix] (Model/Indexer.v): for the index entries in order, a
+   BufReader<FileView> on [off_i, off_{i+1}) - the last one to u64::MAX, as beddata.rs passes - read line
+   by line; reader i issues Reads of sizes [sz i k].
+   For every non-empty text whose lines parse_line accepts and whose chromosomes are grouped (size^2
+   below 2^lim for the depth limit S lim): index_chroms returns the run starts; reader i returns exactly
+   the lines of run i ([groups key]: maximal runs of lines of equal key - non-empty, one key each,
+   neighbours differ: [runs_ok]); entry i carries the key of those lines; and the runs in index order
+   are the serial line stream of the file: nothing lost, nothing duplicated, nothing reordered. *)
+Theorem C18_parallel_stream_eq_serial : forall (key : list N -> N) (bytes : list N) (lim : nat)
+    (sz : nat -> nat -> N) (fuel : nat),
+  bytes <> [] -> (forall l, In l (split_lines bytes) -> key l <> 0) -> grouped (lfile key bytes) ->
+  Nlen bytes * Nlen bytes < 2 ^ N.of_nat lim -> Nlen bytes < 2 ^ 63 ->
+  (forall i k, 1 <= sz i k) -> (length bytes < fuel)%nat ->
+  exists ix,
+    index_chroms (S lim) (lfile key bytes) = Ok (Some ix) /\
+    ix = run_starts (lfile key bytes) /\
+    par_streams fuel bytes sz ix = map Ok (groups key (split_lines bytes)) /\
+    map snd ix = map (ghd key) (groups key (split_lines bytes)) /\
+    runs_ok key (groups key (split_lines bytes)) /\
+    concat (groups key (split_lines bytes)) = split_lines bytes.
+Proof. exact parallel_stream_eq_serial. Qed.
+Print Assumptions C18_parallel_stream_eq_serial.
+
+(* with the limit 100 written in the code: every such text below 2^49 bytes *)
+Theorem C18_parallel_stream_eq_serial_100 : forall (key : list N -> N) (bytes : list N)
+    (sz : nat -> nat -> N) (fuel : nat),
+  bytes <> [] -> (forall l, In l (split_lines bytes) -> key l <> 0) -> grouped (lfile key bytes) ->
+  Nlen bytes < 2 ^ 49 ->
+  (forall i k, 1 <= sz i k) -> (length bytes < fuel)%nat ->
+  exists ix,
+    index_chroms depth_limit (lfile key bytes) = Ok (Some ix) /\
+    ix = run_starts (lfile key bytes) /\
+    par_streams fuel bytes sz ix = map Ok (groups key (split_lines bytes)) /\
+    map snd ix = map (ghd key) (groups key (split_lines bytes)) /\
+    runs_ok key (groups key (split_lines bytes)) /\
+    concat (groups key (split_lines bytes)) = split_lines bytes.
+Proof. exact parallel_stream_eq_serial_100. Qed.
+Print Assumptions C18_parallel_stream_eq_serial_100.
+
+(* Whatever index_chroms answers - any depth limit, grouped text or not, malformed lines or not: the
+   entries cut the raw lines into non-empty consecutive segments, entry i is (byte offset of segment
+   i, key of its first line), reader i returns exactly segment i, the segments in index order are the
+   serial line stream, and Model/Indexer.v's line-level [view_streams] (the observable of the check)
+   is their image.  This is C18_index_views_concat with the reading of FileView proved. *)
+Theorem C18_index_streams : forall (key : list N -> N) (bytes : list N) (limit : nat) (ix : list entry)
+    (sz : nat -> nat -> N) (fuel : nat),
+  index_chroms limit (lfile key bytes) = Ok (Some ix) ->
+  Nlen bytes < 2 ^ 63 -> (forall i k, 1 <= sz i k) -> (length bytes < fuel)%nat ->
+  exists segs,
+    par_streams fuel bytes sz ix = map Ok segs /\
+    concat segs = split_lines bytes /\
+    Forall (fun s => s <> []) segs /\
+    ix = seg_starts key 0 segs /\
+    view_streams (lfile key bytes) ix = map (map (abs_line key)) segs.
+Proof.
+  intros key bytes limit ix sz fuel H Hlen Hsz Hfuel.
+  destruct (index_streams key bytes limit ix sz fuel H Hlen Hsz Hfuel) as (segs & H1 & H2 & H3 & H4).
+  exists segs. repeat (split; [assumption|]). rewrite H4. apply index_view_streams; assumption.
+Qed.
+Print Assumptions C18_index_streams.
+
+(* ------------------------------------------------------------------ (3) the chunker's readers *)
+(* [chunk_streams fuel file sz cs]: one BufReader<FileView> per piece, reader i with read sizes
+   [sz i k].  For the pieces split_file_into_chunks_by_size returns: no reader fails, reader i returns
+   the lines of piece i, and the lines of all readers in piece order are the lines of the file, raw and
+   as StreamingLineReader trims them: C18_chunks_lines / C18_chunks_line_stream through real reads. *)
+Theorem C18_chunk_stream_eq_serial : forall (file : list N) (n : N) (cs : list (N * N))
+    (sz : nat -> nat -> N) (fuel : nat),
+  split_file_into_chunks_by_size file n = Ok cs ->
+  Nlen file < 2 ^ 63 -> (forall i k, 1 <= sz i k) -> (length file < fuel)%nat ->
+  exists streams,
+    chunk_streams fuel file sz cs = map Ok streams /\
+    streams = map (fun ab => split_lines (range file (fst ab) (snd ab))) cs /\
+    concat streams = split_lines file /\
+    concat (map (map trim_end) streams) = line_stream file.
+Proof. exact chunk_stream_eq_serial. Qed.
+Print Assumptions C18_chunk_stream_eq_serial.
+
+(* The byte pieces themselves are what C17_chunked_eq_serial / C17_chunking_irrelevant assume of a
+   chunking ([cuts_at_lines] of Proofs/BedStatsRows.v, unfolded): they concatenate to the file and every
+   piece but the last is empty or ends with a newline. *)
+Theorem C18_chunks_cut_at_lines : forall (file : list N) (n : N) (cs : list (N * N)),
+  split_file_into_chunks_by_size file n = Ok cs ->
+  let pieces := map (fun ab => range file (fst ab) (snd ab)) cs in
+  concat pieces = file /\
+  Forall (fun c => c = [] \/ exists c', c = c' ++ [NL]) (removelast pieces).
+Proof. exact chunks_cut_at_lines. Qed.
+Print Assumptions C18_chunks_cut_at_lines.
+
+(* ------------------------------------------------------------------ (2) continued: C13's parallel source *)
+(* Composition with C13's model of the parallel source (Model/Accept.v).  The indexer's parse_line is
+   parse_bed's first three fields, so key = [bed_key cid]: 0 when parse_bed_line refuses the line, else
+   the id [cid] gives the chromosome name (the bytes before the first TAB); [cid] is any numbering that
+   keeps the names of this text apart.  Task i of the parallel source = (chromosome of index entry i,
+   the parsed lines reader i delivers).  The tasks are exactly C13's [line_runs] of the parsed lines of
+   the text, for bedGraph and for BED; so the parallel source on index + views is C13's
+   bw_text_parallel / bb_text_parallel, and it accepts exactly the texts the serial source accepts
+   (C13_text_serial_eq_parallel). *)
+Import Model.BBIFile Model.BigWigWrite Model.Accept Proofs.SliceStreamsAccept.
+Theorem C18_parallel_source_eq_serial : forall (cid : name -> N) fok o sizes (text : list N) (lim : nat)
+    (sz : nat -> nat -> N) (fuel : nat),
+  let key := bed_key cid in
+  text <> [] ->
+  (forall l, In l (split_lines text) -> key l <> 0) ->
+  (forall l1 l2, In l1 (split_lines text) -> In l2 (split_lines text) ->
+     cid (chrom_of l1) = cid (chrom_of l2) -> chrom_of l1 = chrom_of l2) ->
+  grouped (lfile key text) ->
+  Nlen text * Nlen text < 2 ^ N.of_nat lim -> Nlen text < 2 ^ 63 ->
+  (forall i k, 1 <= sz i k) -> (length text < fuel)%nat ->
+  exists ix streams,
+    index_chroms (S lim) (lfile key text) = Ok (Some ix) /\
+    par_streams fuel text sz ix = map Ok streams /\
+    concat streams = split_lines text /\
+    tasks (bw_parse fok) streams = line_runs (bw_lines fok text) /\
+    tasks bb_parse streams = line_runs (bb_lines text) /\
+    parallel check_val (o_sort_all o) sizes (tasks (bw_parse fok) streams) = bw_text_parallel fok o sizes text /\
+    parallel bb_check_val (o_sort_all o) sizes (tasks bb_parse streams) = bb_text_parallel o sizes text /\
+    (bw_text_serial fok o sizes text = Ok tt <->
+     parallel check_val (o_sort_all o) sizes (tasks (bw_parse fok) streams) = Ok tt) /\
+    (bb_text_serial o sizes text = Ok tt <->
+     parallel bb_check_val (o_sort_all o) sizes (tasks bb_parse streams) = Ok tt).
+Proof. exact parallel_source_eq_serial. Qed.
+Print Assumptions C18_parallel_source_eq_serial.
+
+(* Non-vacuity: a three-chromosome BED text, last line without newline, every reader with a buffer of
+   3 bytes (every line spans several Reads):
+     "c1\t0\t1\nc1\t5\t9\nc2\t0\t4\nc3\t1\t2"
+   key = the digit after 'c' (as bed_key gives with cid = that digit). *)
+Definition ex_bed : list N :=
+  [99;49;9;48;9;49;10; 99;49;9;53;9;57;10; 99;50;9;48;9;52;10; 99;51;9;49;9;50].
+Definition ex_cid (c : name) : N := match c with [_; d] => d - 48 | _ => 0 end.
+Definition ex_sz (i k : nat) : N := 3.
+Example C18_example_parallel_streams :
+  let key := bed_key ex_cid in
+  (ex_bed <> [] /\ (forall l, In l (split_lines ex_bed) -> key l <> 0) /\
+   (forall l1 l2, In l1 (split_lines ex_bed) -> In l2 (split_lines ex_bed) ->
+      ex_cid (chrom_of l1) = ex_cid (chrom_of l2) -> chrom_of l1 = chrom_of l2) /\
+   grouped (lfile key ex_bed) /\ Nlen ex_bed < 2 ^ 49 /\
+   (forall i k, 1 <= ex_sz i k) /\ (length ex_bed < lines_fuel ex_bed)%nat) /\
+  lfile key ex_bed = [(1, 7); (1, 7); (2, 7); (3, 6)] /\
+  index_chroms depth_limit (lfile key ex_bed) = Ok (Some [(0, 1); (14, 2); (21, 3)]) /\
+  par_streams (lines_fuel ex_bed) ex_bed ex_sz [(0, 1); (14, 2); (21, 3)] =
+    [Ok [[99;49;9;48;9;49;10]; [99;49;9;53;9;57;10]]; Ok [[99;50;9;48;9;52;10]]; Ok [[99;51;9;49;9;50]]] /\
+  groups key (split_lines ex_bed) =
+    [[[99;49;9;48;9;49;10]; [99;49;9;53;9;57;10]]; [[99;50;9;48;9;52;10]]; [[99;51;9;49;9;50]]] /\
+  tasks bb_parse (groups key (split_lines ex_bed)) = line_runs (bb_lines ex_bed) /\
+  (* the window [14,21) of the second entry, read 3 bytes at a time *)
+  run_view ex_bed 14 21 [Read 3; Read 3; Read 3; Read 3] =
+    [Ok (Bytes [99;50;9]); Ok (Bytes [48;9;52]); Ok (Bytes [10]); Ok (Bytes [])].
+Proof.
+  cbv zeta.
+  assert (Hl : split_lines ex_bed =
+               [[99;49;9;48;9;49;10]; [99;49;9;53;9;57;10]; [99;50;9;48;9;52;10]; [99;51;9;49;9;50]])
+    by (vm_compute; reflexivity).
+  split; [|repeat split; vm_compute; reflexivity].
+  split; [discriminate|]. rewrite Hl.
+  split; [intros l [<-|[<-|[<-|[<-|[]]]]]; vm_compute; discriminate|].
+  split; [intros l1 l2 [<-|[<-|[<-|[<-|[]]]]] [<-|[<-|[<-|[<-|[]]]]]; vm_compute; intros E;
+          first [reflexivity | discriminate E]|].
+  split; [apply groupedb_sound; vm_compute; reflexivity|].
+  split; [vm_compute; reflexivity|].
+  split; [intros i k; vm_compute; discriminate | vm_compute; lia].
+Qed.
+
+(* the chunked text of C18_example_chunks in 3 pieces, every reader with a buffer of 3 bytes *)
+Example C18_example_chunk_streams :
+  chunk_streams (lines_fuel ex_text) ex_text ex_sz [(0, 6); (6, 7); (7, 11)] =
+    [Ok [[97; 98; 10]; [99; 100; 10]]; Ok [[10]]; Ok [[101; 102; 103; 104]]] /\
+  split_lines ex_text = [[97; 98; 10]; [99; 100; 10]; [10]; [101; 102; 103; 104]].
+Proof. split; vm_compute; reflexivity. Qed.
